@@ -327,6 +327,10 @@ func normExpr(fset *token.FileSet, info *types.Info, n ast.Node) string {
 			if obj == nil {
 				obj = info.Defs[x]
 			}
+			if o, ok := globalCanon[obj]; ok {
+				b.WriteString(o)
+				return
+			}
 			if v, ok := obj.(*types.Var); ok && !v.IsField() && v.Parent() != nil && v.Pkg() != nil && v.Parent() != v.Pkg().Scope() {
 				nm, seen := names[obj]
 				if !seen {
@@ -479,6 +483,14 @@ func (c *Ctx) owners() map[string]string {
 		}
 	}
 	c.ownerMap = map[string]string{}
+	c.callersOf = callers
+	c.notHelper = map[string]bool{}
+	for n := range exported {
+		c.notHelper[n] = true
+	}
+	for n := range taken {
+		c.notHelper[n] = true
+	}
 	for name, cs := range callers {
 		if exported[name] || taken[name] || len(cs) != 1 {
 			continue
@@ -488,6 +500,31 @@ func (c *Ctx) owners() map[string]string {
 		}
 	}
 	return c.ownerMap
+}
+
+// coveredBy reports whether every execution of function name happens under one
+// of the given entry functions: it is an entry itself, or it is an unexported
+// helper (address never taken) all of whose callers are covered.
+func (c *Ctx) coveredBy(name string, entries map[string]bool) bool {
+	c.owners()
+	var rec func(n string, depth int, onPath map[string]bool) bool
+	rec = func(n string, depth int, onPath map[string]bool) bool {
+		if entries[n] {
+			return true
+		}
+		if depth > 8 || onPath[n] || c.notHelper[n] || len(c.callersOf[n]) == 0 {
+			return false
+		}
+		onPath[n] = true
+		defer delete(onPath, n)
+		for from := range c.callersOf[n] {
+			if !rec(from, depth+1, onPath) {
+				return false
+			}
+		}
+		return true
+	}
+	return rec(name, 0, map[string]bool{})
 }
 
 func (c *Ctx) ownerChain(name string) []string {
@@ -583,10 +620,8 @@ func (c *Ctx) decidedByBoundedFold(s bceSite) (string, bool) {
 	if !s.Lbrack.IsValid() || c.fb.bnote[s.Lbrack] != "proven" {
 		return "", false
 	}
-	for _, o := range c.ownerChain(s.Func) {
-		if c.fb.bentries[o] {
-			return fmt.Sprintf("in range on all %d executions of the site in the folds of %s (bounded input domains; every execution proven for the whole cell / symbolic content)", c.fb.bcount[s.Lbrack], o), true
-		}
+	if c.coveredBy(s.Func, c.fb.bentries) {
+		return fmt.Sprintf("in range on all %d executions of the site in the folds that cover every caller of %s (bounded input domains; every execution proven for the whole cell / symbolic content)", c.fb.bcount[s.Lbrack], s.Func), true
 	}
 	return "", false
 }
